@@ -4,6 +4,7 @@ CONSTANTS
   Modes = {"independent", "cumulative"}
   MaxNext = 4
   MaxSep = 2
+  MinMarkers = 0
   LineKinds = {"c", "m", "f"}
   Flags = {}
 INVARIANT Lossless
